@@ -151,6 +151,7 @@ from basilisp.lang.compiler.nodes import (
 from basilisp.lang.interfaces import (
     IMeta,
     INamed,
+    IPersistentCollection,
     IRecord,
     ISeq,
     IType,
@@ -2787,7 +2788,24 @@ def _invoke_ast(form: llist.PersistentList | ISeq, ctx: AnalyzerContext) -> Node
             #       if they are inlined (e.g. if the namespace or module is imported)
             inline_fn = cast(Callable, fn.var.meta.get(SYM_INLINE_META_KW))
             try:
-                expanded = inline_fn(*form.rest)
+                # An inline function splices its argument forms into a template, which
+                # may repeat, reorder, or drop them. Compound argument forms are bound to
+                # locals first so each is still evaluated exactly once and in order, as
+                # it would be by calling the function.
+                inline_args: list = []
+                inline_bindings: list = []
+                for arg_form in form.rest:
+                    if isinstance(arg_form, (ISeq, IPersistentCollection)):
+                        arg_sym = sym.symbol(genname("inline_arg"))
+                        inline_bindings.extend((arg_sym, arg_form))
+                        inline_args.append(arg_sym)
+                    else:
+                        inline_args.append(arg_form)
+                expanded = inline_fn(*inline_args)
+                if inline_bindings:
+                    expanded = llist.l(
+                        SpecialForm.LET, vec.vector(inline_bindings), expanded
+                    )
                 return __handle_macroexpanded_ast(form, expanded, ctx)
             except Exception as e:
                 if isinstance(e, CompilerException) and (  # pylint: disable=no-member
